@@ -44,6 +44,7 @@ def build(case):
     A.config["setup"]["flow rate"] = 0.04
     A.filter.manual[:] = [i + 1 in case["mask"] for i in range(n)]
     A.config["filtering"]["enable filters"] = bool(case["enabled"])
+    A.config["filtering"]["limit events"] = int(case.get("limit", 0))
     A.apply_filter()
     idx = [i - 1 for i in used]
     if idx:
